@@ -14,6 +14,14 @@ package main
 // queries added in the deepening round: str:<hex> (Taxon(string)), rss:<hex>:s (IsSubCladeOfSlot on a string attribute),
 // isub:c irank:r ibel:c,c (ITaxonSet filters drained, sorted), tpath:s (taxonomic_path), name:x, state (nodes and alias maps).
 //
+// second pass: the sequence level entry points of pkg/obitax (sequence_predicate.go, sequence_methods.go, sequence_workers.go)
+// called directly: vf:s (IsAValidTaxon(true): answer ':' taxid attribute afterwards), sp:c:s (Taxonomy.IsSubCladeOf(c) closure),
+// hq:r:s (Taxonomy.HasRequiredRank(r) closure), sw:k:s (k = sp|ge|fa: MakeSetSpecies/Genus/FamilyWorker + SetSpecies/…, r<hex>:
+// MakeSetTaxonAtRankWorker), sn:s (SetScientificName, AddScientificNameWorker), tr:s (SetTaxonomicRank, AddTaxonRankWorker);
+// wlo:k=w,… (Taxonomy.LCA(…, 1.0) run 300 times: the sorted set of its answers over Go's map iteration orders).
+// Alias oracle: every query on a sequence whose taxid is a merged id is run again with the taxid it resolves to; the two
+// answers must be the same (<op>.alias).
+//
 // The oracle is computed from the parent table of the case line only (ancestor chains walked naively).
 
 import (
@@ -58,6 +66,7 @@ type c14Tree struct {
 	// mode dump: the bytes of nodes.dmp / names.dmp / merged.dmp (ids etc. then hold the tree the generator
 	// declared, empty when the dump is not meant to be one)
 	dumpN, dumpM, dumpG []byte
+	ncbiLayout          bool // nodes.dmp / merged.dmp are the declared tree in the NCBI layout (word L of the case line)
 }
 
 func (t *c14Tree) getRef() *c14Ref {
@@ -103,6 +112,9 @@ func (t *c14Tree) dumpLine(declared bool, qs []string) string {
 	var sb strings.Builder
 	fmt.Fprintf(&sb, "dump N%s M%s G%s", c14Hex(string(t.dumpN)), c14Hex(string(t.dumpM)), c14Hex(string(t.dumpG)))
 	if declared {
+		if t.ncbiLayout {
+			sb.WriteString(" L")
+		}
 		rest := t.line("", nil)
 		sb.WriteString(rest)
 	}
@@ -270,6 +282,62 @@ func c14SeqAttr(rng *rand.Rand, t *c14Tree) string {
 	return strconv.Itoa(c14AnyID(rng, t))
 }
 
+// c14SeqAttrA: the taxid attribute of a sequence for the sequence level queries: often a merged id (alias,
+// alias of an alias), sometimes unknown, the root, absent
+func c14SeqAttrA(rng *rand.Rand, t *c14Tree) string {
+	switch r := rng.Intn(20); {
+	case r < 7 && len(t.aliases) > 0:
+		return strconv.Itoa(t.aliases[rng.Intn(len(t.aliases))][0])
+	case r < 9:
+		return strconv.Itoa(t.freshID(rng))
+	case r < 11:
+		for _, x := range t.ids {
+			if t.parent[x] == x {
+				return strconv.Itoa(x)
+			}
+		}
+	case r == 11:
+		return "-"
+	}
+	return strconv.Itoa(t.ids[rng.Intn(len(t.ids))])
+}
+
+// c14SeqQueries: the sequence level queries of a small tree for every taxid a sequence can carry (nodes, merged
+// ids, an unknown taxid, none) x every clade (nodes, merged ids)
+func c14SeqQueries(rng *rand.Rand, t *c14Tree, ranks []string) []string {
+	var qs []string
+	seen := map[int]bool{}
+	var carried, clades []int
+	for _, x := range t.ids {
+		if !seen[x] {
+			seen[x] = true
+			carried = append(carried, x)
+		}
+	}
+	for _, a := range t.aliases {
+		if !seen[a[0]] {
+			seen[a[0]] = true
+			carried = append(carried, a[0])
+		}
+	}
+	clades = append(clades, carried...)
+	carried = append(carried, t.freshID(rng))
+	attrs := []string{"-"}
+	for _, x := range carried {
+		attrs = append(attrs, strconv.Itoa(x))
+	}
+	for _, s := range attrs {
+		qs = append(qs, "vf:"+s, "val:"+s, "sn:"+s, "tr:"+s, "tpath:"+s, "sw:sp:"+s, "sw:ge:"+s, "sw:fa:"+s)
+		for _, r := range ranks {
+			qs = append(qs, fmt.Sprintf("sw:r%s:%s", c14Hex(r), s), fmt.Sprintf("hq:%s:%s", c14Hex(r), s), fmt.Sprintf("sr:%s:%s", c14Hex(r), s))
+		}
+		for _, c := range clades {
+			qs = append(qs, fmt.Sprintf("sp:%d:%s", c, s), fmt.Sprintf("rt:%d:%s", c, s), fmt.Sprintf("ig:%d:%s", c, s), fmt.Sprintf("rs:%d:%s", c, s))
+		}
+	}
+	return qs
+}
+
 func c14Join(l []int) string {
 	s := make([]string, len(l))
 	for i, v := range l {
@@ -331,8 +399,13 @@ func c14Weights(rng *rand.Rand, t *c14Tree, k int, clade bool) string {
 			w = 0
 		}
 		if r, ok := ref.resolve(x); ok {
-			if w0, seen := wOf[r]; seen {
-				w = w0
+			if w0, seen := wOf[r]; seen { // same "count > 0", any value
+				if w0 == 0 {
+					w = 0
+				} else if w == 0 {
+					w = 1 + rng.Intn(5)
+				}
+				stat("gen:wl-dup-node")
 			} else {
 				wOf[r] = w
 			}
@@ -340,6 +413,46 @@ func c14Weights(rng *rand.Rand, t *c14Tree, k int, clade bool) string {
 		parts = append(parts, fmt.Sprintf("%d=%d", x, w))
 	}
 	return strings.Join(parts, ",")
+}
+
+// c14WeightsDup: a merged_taxid map in which exactly one taxon is present under two keys (a merged id and the
+// taxid it resolves to, or two merged ids), once with a zero count and once with a positive one, next to at most
+// two other taxa of positive count: TaxonomicDistribution keeps whichever of the two keys Go's map iteration
+// yields last (known order dependence, see lib/cfg/C14.py); "" when the tree has no resolvable merged id
+func c14WeightsDup(rng *rand.Rand, t *c14Tree) string {
+	ref := t.getRef()
+	for try := 0; try < 20; try++ {
+		a := t.aliases[rng.Intn(len(t.aliases))][0]
+		x, ok := ref.resolve(a)
+		if _, live := t.parent[a]; !ok || live {
+			continue
+		}
+		k2 := x
+		if rng.Intn(3) == 0 { // another merged id of the same taxon
+			for _, b := range t.aliases {
+				if y, ok := ref.resolve(b[0]); ok && y == x && b[0] != a {
+					if _, live := t.parent[b[0]]; !live {
+						k2 = b[0]
+					}
+				}
+			}
+		}
+		parts := []string{fmt.Sprintf("%d=0", a), fmt.Sprintf("%d=%d", k2, 1+rng.Intn(4))}
+		if rng.Intn(2) == 0 {
+			parts[0], parts[1] = fmt.Sprintf("%d=%d", a, 1+rng.Intn(4)), fmt.Sprintf("%d=0", k2)
+		}
+		used := map[int]bool{x: true}
+		for i := rng.Intn(3); i > 0; i-- {
+			y := t.ids[rng.Intn(len(t.ids))]
+			if !used[y] {
+				used[y] = true
+				parts = append(parts, fmt.Sprintf("%d=%d", y, 1+rng.Intn(4)))
+			}
+		}
+		rng.Shuffle(len(parts), func(i, j int) { parts[i], parts[j] = parts[j], parts[i] })
+		return strings.Join(parts, ",")
+	}
+	return fmt.Sprintf("%d=1", t.ids[0])
 }
 
 func c14RandQueries(rng *rand.Rand, t *c14Tree, ranks []string, k int) []string {
@@ -351,7 +464,29 @@ func c14RandQueries(rng *rand.Rand, t *c14Tree, ranks []string, k int) []string 
 		return c14Hex(t.rank[t.ids[rng.Intn(len(t.ids))]])
 	}
 	for i := 0; i < k; i++ {
-		switch rng.Intn(28) {
+		switch rng.Intn(36) {
+		case 28:
+			qs = append(qs, "vf:"+c14SeqAttrA(rng, t))
+		case 29:
+			qs = append(qs, fmt.Sprintf("sp:%s:%s", c14IDList(rng, t, 1), c14SeqAttrA(rng, t)))
+		case 30:
+			qs = append(qs, fmt.Sprintf("hq:%s:%s", rk(), c14SeqAttrA(rng, t)))
+		case 31:
+			k := []string{"sp", "ge", "fa", "r" + rk(), "r" + rk()}[rng.Intn(5)]
+			qs = append(qs, fmt.Sprintf("sw:%s:%s", k, c14SeqAttrA(rng, t)))
+		case 32:
+			qs = append(qs, []string{"sn:", "tr:", "tpath:"}[rng.Intn(3)]+c14SeqAttrA(rng, t))
+		case 33:
+			qs = append(qs, fmt.Sprintf("%s:%s:%s", []string{"rt", "ig"}[rng.Intn(2)], c14IDList(rng, t, 1+rng.Intn(2)), c14SeqAttrA(rng, t)))
+		case 34:
+			qs = append(qs, fmt.Sprintf("flt:%s:%s:%s:%s", c14RankList(rng, t, ranks, rng.Intn(2)),
+				c14IDList(rng, t, rng.Intn(2)), c14IDList(rng, t, rng.Intn(2)), c14SeqAttrA(rng, t)))
+		case 35:
+			if len(t.aliases) > 0 && rng.Intn(2) == 0 {
+				qs = append(qs, "wlo:"+c14WeightsDup(rng, t))
+			} else {
+				qs = append(qs, fmt.Sprintf("rs:%d:%s", c14AnyID(rng, t), c14SeqAttrA(rng, t)))
+			}
 		case 22:
 			qs = append(qs, "str:"+c14Hex(c14StrForm(rng, t)))
 		case 23:
@@ -534,7 +669,9 @@ func c14RenderDump(rng *rand.Rand, t *c14Tree, ncbi bool) {
 			if i > 0 {
 				sb.WriteString("|")
 			}
-			sb.WriteString(c14Pad(rng, ncbi && i > 0))
+			if !(ncbi && i == 0) { // NCBI layout: no blank before the first field
+				sb.WriteString(c14Pad(rng, ncbi))
+			}
 			sb.WriteString(f)
 			sb.WriteString(c14Pad(rng, ncbi))
 		}
@@ -752,7 +889,7 @@ func c14GenExtra(rng *rand.Rand, tier string, emit func(string)) {
 	merged := "9\t|\t3\t|\n10\t|\t9\t|\n11\t|\t99\t|\n2\t|\t4\t|\n12\t|\t11\t|\n"
 	decl := "n1:1:" + nr + " n2:1:" + ge + " n3:2:" + sp + " n4:2:" + sp + " a9:3 a10:9 a11:99 a2:4 a12:11"
 	qs := " qstate qpath:10 qtpath:10 qname:9 qlca:3:4 qlca:10:4 qres:11 qres:12 qres:2 qisub:2 qirank:" + sp + " qstr:" + h("TX:10") + " qrt:2:9 qsr:" + ge + ":10 qwl:3=1,10=1,4=2"
-	emit(c14DumpCase(nodes, names, merged, decl+qs))
+	emit(c14DumpCase(nodes, names, merged, "L "+decl+qs))
 	// the same tree in other layouts: no blanks, blanks, CRLF, comments and empty lines, no final line break, final \r, signs and leading zeros
 	emit(c14DumpCase("1|1|no rank\n2|1|genus\n3|2|species\n4|2|species\n", "1|n1||scientific name\n2|n2||scientific name\n3|n3||scientific name\n4|n4||scientific name\n", "9|3\n10|9\n11|99\n2|4\n12|11\n", decl+qs))
 	emit(c14DumpCase("# nodes\r\n 1 | 1 | no rank |\r\n\r\n2 |1|genus  |\r\n\n\n#3|3|x|\n  +3|002|\tspecies|\n4|2|species|", "1 | n1 | | scientific name |\r\n2|n2||scientific name|\r\n3|n3||scientific name\r\n4|n4|u|  scientific name\t|\r", "9|3|\r\n#\n10|9|\n11|99|\n2|4|\n12|11|\r", decl+qs))
@@ -808,8 +945,12 @@ func c14GenExtra(rng *rand.Rand, tier string, emit func(string)) {
 			t.ref = nil
 		}
 		c14Aliases(rng, t, rng.Intn(8))
-		ncbi := odd || rng.Intn(4) == 0
+		ncbi := odd || rng.Intn(3) == 0
 		c14RenderDump(rng, t, ncbi)
+		t.ncbiLayout = ncbi && !odd
+		if t.ncbiLayout {
+			stat("gen:dump-ncbi-layout")
+		}
 		qs := append([]string{"state"}, c14RandQueries(rng, t, ranks, 8+rng.Intn(16))...)
 		if odd {
 			kind := c14Spoil(rng, t)
@@ -882,6 +1023,26 @@ func (c14) Gen(rng *rand.Rand, tier string, emit func(string)) {
 		// the same through a dump directory
 		"taxd n1:1:" + nr + " n2:1:" + fa + " n3:2:" + ge + " n4:3:" + sp + " n5:3:" + sp + " a10:4 a11:10 a12:99 qlca:4:5 qlca:11:2 qres:12 qpath:10 qrank:4:" + fa + " qwl:4=1,5=2 qrt:3:4 qsr:" + ge + ":5",
 	}
+	// second pass: sequences annotated with a merged taxid (40 -> 4, 60 -> 6), an alias of an alias (41 -> 40), an
+	// alias overwritten (60 -> 5 then 6), an unknown taxid, the root, no taxid, on every sequence level entry point;
+	// the first line is the obigrep -r 2 / -i 2 regression of seeded change C14-m3
+	demo := "n1:1:" + nr + " n2:1:" + fa + " n3:1:" + fa + " n4:2:" + sp + " n5:2:" + ge + " n6:3:" + sp + " a40:4 a60:5 a60:6 a41:40 a42:99"
+	var dq []string
+	for _, sq := range []string{"1", "4", "5", "6", "40", "41", "60", "42", "99", "-"} {
+		dq = append(dq, "qrt:2:"+sq, "qig:2:"+sq, "qsp:2:"+sq, "qsp:40:"+sq, "qsp:41:"+sq, "qsp:1:"+sq, "qvf:"+sq, "qval:"+sq, "qhq:"+sp+":"+sq, "qhq:"+fa+":"+sq,
+			"qsw:sp:"+sq, "qsw:ge:"+sq, "qsw:fa:"+sq, "qsw:r"+nr+":"+sq, "qsn:"+sq, "qtr:"+sq, "qtpath:"+sq, "qrs:40:"+sq, "qrss:"+h("TX:41")+":"+sq,
+			"qflt:"+sp+":2:5:"+sq, "qsr:"+fa+":"+sq, "qwls:"+sq)
+	}
+	corpus = append(corpus,
+		"tax "+demo+" "+strings.Join(dq, " "),
+		"taxd "+demo+" "+strings.Join(dq[:60], " "),
+		"tax "+demo+" qsp:99:4 qsp:42:4 qhq:"+h("order")+":4 qsw:r"+h("order")+":4 qsw:r"+ge+":40 qsw:r"+ge+":41 qsw:r"+sp+":60",
+		// weighted LCA: merged ids as keys, zero counts, a taxon present under several keys (same "count > 0")
+		"tax "+demo+" qwl:40=2,4=3 qwl:40=1,41=5,4=2,6=1 qwl:40=0,4=0,6=3 qwl:41=0,40=0,5=2,4=0 qwl:60=2,6=1,3=0 qwl:40=0,41=0 qwl:5=0,4=0,40=0,6=0 qwl:40=3,42=1"+
+			" qwlo:40=0,4=2,5=1 qwlo:40=2,4=0,5=1 qwlo:41=0,40=3,6=1 qwlo:40=0,4=2 qwlo:4=1,5=2 qwlo:40=1,4=2,6=1",
+		// a taxonomy rooted at taxid 0: auto-correction to the root goes through SetTaxid (0 is stored as 1)
+		"tax n0:0:"+nr+" n1:0:"+sp+" n2:0:"+sp+" a7:0 a8:2 a9:8 qvf:7 qvf:8 qvf:9 qvf:0 qvf:- qvf:5 qsp:0:7 qsp:7:9 qsn:7 qtr:9",
+	)
 	for _, c := range corpus {
 		emit(c)
 	}
@@ -914,6 +1075,8 @@ func (c14) Gen(rng *rand.Rand, tier string, emit func(string)) {
 			t := c14Label(rng, par, 2, small)
 			c14Aliases(rng, t, 1+rng.Intn(3))
 			emit(t.line("tax", c14RandQueries(rng, t, small, 40)))
+			emit(t.line([]string{"tax", "tax", "taxd"}[rng.Intn(3)], c14SeqQueries(rng, t, small)))
+			stat("gen:seq-exhaustive")
 		})
 	}
 
@@ -1259,6 +1422,61 @@ func (r *c14Ref) expect(f []string) string {
 			return "-1"
 		}
 		return strconv.Itoa(y)
+	case "vf":
+		tid := c14SeqTaxid(f[1])
+		x, ok := r.resolve(tid)
+		if !ok {
+			return "F:" + f[1]
+		}
+		if x != tid {
+			return "T:" + strconv.Itoa(max(x, 1)) // SetTaxid stores 1 for a taxid below 1
+		}
+		return "T:" + f[1]
+	case "sp":
+		b, fatal := inAny(ints(f[1]), f[2])
+		if fatal {
+			return "fatal"
+		}
+		return c14B(b)
+	case "hq":
+		b, fatal := allRanks(rks(f[1]), f[2])
+		if fatal {
+			return "fatal"
+		}
+		return c14B(b)
+	case "sw":
+		var k string
+		switch {
+		case f[1] == "sp":
+			k = "species"
+		case f[1] == "ge":
+			k = "genus"
+		case f[1] == "fa":
+			k = "family"
+		default:
+			k, _ = c14Unhex(f[1][1:])
+			if !r.hasRankLabel(k) {
+				return "fatal"
+			}
+		}
+		x, ok := r.resolve(c14SeqTaxid(f[2]))
+		if !ok {
+			return "none"
+		}
+		y, found := r.atRank(x, k)
+		if !found {
+			return "-1/" + c14Hex("NA")
+		}
+		return fmt.Sprintf("%d/%s", y, c14Hex(c14Name(y)))
+	case "sn", "tr":
+		x, ok := r.resolve(c14SeqTaxid(f[1]))
+		if !ok {
+			return "fatal"
+		}
+		if f[0] == "sn" {
+			return c14Hex(c14Name(x))
+		}
+		return c14Hex(r.t.rank[x])
 	case "str", "rss":
 		str, _ := c14Unhex(f[1])
 		for i, run := 0, 0; i < len(str); i++ { // numbers near the int range: the model is the reference
@@ -1445,6 +1663,11 @@ func c14Parse(c string) (mode string, t *c14Tree, qs []string, ok bool) {
 			t.aliases = append(t.aliases, [2]int{o, n})
 		case 'q':
 			qs = append(qs, w[1:])
+		case 'L':
+			if w != "L" || f[0] != "dump" {
+				return "", nil, nil, false
+			}
+			t.ncbiLayout = true
 		default:
 			return "", nil, nil, false
 		}
@@ -1767,6 +1990,133 @@ func c14Query(tax *obitax.Taxonomy, ref *c14Ref, f []string, fail func(sig, form
 			fail("sr.name", "%s_taxid=%d with %s_name=%q", rank, n, rank, name)
 		}
 		return strconv.Itoa(n)
+	case f[0] == "vf" && len(f) == 2:
+		seq := c14Seq(f[1])
+		b := tax.IsAValidTaxon(true)(seq)
+		after := "-"
+		if seq.HasAttribute("taxid") {
+			after = strconv.Itoa(seq.Taxid())
+		}
+		// without auto-correction: the same answer, the sequence untouched
+		seq2 := c14Seq(f[1])
+		if b2 := tax.IsAValidTaxon()(seq2); b2 != b || seq2.HasAttribute("taxid") != (f[1] != "-") || (f[1] != "-" && seq2.Taxid() != id(f[1])) {
+			fail("vf.noauto", "IsAValidTaxon() answers %v and leaves taxid %d, IsAValidTaxon(true) answers %v", b2, seq2.Taxid(), b)
+		}
+		return c14B(b) + ":" + after
+	case f[0] == "sp" && len(f) == 3:
+		return c14B(tax.IsSubCladeOf(id(f[1]))(c14Seq(f[2])))
+	case f[0] == "hq" && len(f) == 3:
+		return c14B(tax.HasRequiredRank(c14Unrank(f[1]))(c14Seq(f[2])))
+	case f[0] == "sw" && len(f) == 3 && len(f[1]) >= 1:
+		seq, seq2 := c14Seq(f[2]), c14Seq(f[2])
+		var rank string
+		var ret *obitax.TaxNode
+		switch {
+		case f[1] == "sp":
+			rank = "species"
+			tax.MakeSetSpeciesWorker()(seq)
+			ret = tax.SetSpecies(seq2)
+		case f[1] == "ge":
+			rank = "genus"
+			tax.MakeSetGenusWorker()(seq)
+			ret = tax.SetGenus(seq2)
+		case f[1] == "fa":
+			rank = "family"
+			tax.MakeSetFamilyWorker()(seq)
+			ret = tax.SetFamily(seq2)
+		case f[1][0] == 'r':
+			rank = c14Unrank(f[1][1:])
+			tax.MakeSetTaxonAtRankWorker(rank)(seq)
+			ret = tax.SetTaxonAtRank(seq2, rank)
+		default:
+			return "bad-op"
+		}
+		v, ok := seq.GetAttribute(rank + "_taxid")
+		if !ok {
+			if ret != nil || seq2.HasAttribute(rank+"_taxid") {
+				fail("sw.ret", "the worker writes nothing but Set… returns a taxon")
+			}
+			return "none"
+		}
+		n, _ := v.(int)
+		name, _ := seq.GetStringAttribute(rank + "_name")
+		v2, _ := seq2.GetIntAttribute(rank + "_taxid")
+		if (ret == nil) != (n < 0) || (ret != nil && ret.Taxid() != n) || v2 != n {
+			fail("sw.ret", "the worker writes %s_taxid=%d, the method writes %d and returns %v", rank, n, v2, ret)
+		}
+		return fmt.Sprintf("%d/%s", n, c14Hex(name))
+	case f[0] == "sn" && len(f) == 2:
+		seq, seq2 := c14Seq(f[1]), c14Seq(f[1])
+		name := tax.SetScientificName(seq)
+		obiannotate.AddScientificNameWorker(tax)(seq2)
+		a1, _ := seq.GetStringAttribute("scienctific_name") // sic: the key the code writes
+		a2, _ := seq2.GetStringAttribute("scienctific_name")
+		if a1 != name || a2 != name {
+			fail("sn.attr", "SetScientificName returns %q, writes %q, the worker %q", name, a1, a2)
+		}
+		return c14Hex(name)
+	case f[0] == "tr" && len(f) == 2:
+		seq, seq2 := c14Seq(f[1]), c14Seq(f[1])
+		rank := tax.SetTaxonomicRank(seq)
+		obiannotate.AddTaxonRankWorker(tax)(seq2)
+		a1, _ := seq.GetStringAttribute("taxonomic_rank")
+		a2, _ := seq2.GetStringAttribute("taxonomic_rank")
+		if a1 != rank || a2 != rank {
+			fail("tr.attr", "SetTaxonomicRank returns %q, writes %q, the worker %q", rank, a1, a2)
+		}
+		return c14Hex(rank)
+	case f[0] == "wlo" && len(f) == 2:
+		m := map[string]int{}
+		for _, kv := range strings.Split(f[1], ",") {
+			p := strings.Split(kv, "=")
+			if len(p) != 2 {
+				return "bad-op"
+			}
+			m[p[0]] = id(p[1])
+		}
+		if len(m) > 4 {
+			return "bad-op"
+		}
+		seen := map[int]bool{}
+		for i := 0; i < 300; i++ {
+			seq := obiseq.NewBioSequence("s", []byte("acgt"), "")
+			m2 := map[string]int{}
+			for k, v := range m {
+				m2[k] = v
+			}
+			seq.SetAttribute("merged_taxid", m2)
+			l, _, _ := tax.LCA(seq, 1.0)
+			if l == nil {
+				seen[-1] = true
+			} else {
+				seen[l.Taxid()] = true
+			}
+		}
+		if seen[-1] {
+			return "nil"
+		}
+		var l []int
+		for k := range seen {
+			l = append(l, k)
+		}
+		sort.Ints(l)
+		if ref.wf { // what the tree implies: the deepest common ancestor of the taxa having a positive count under some key
+			var present []int
+			for k, w := range m {
+				if x, ok := ref.resolve(id(k)); ok && w > 0 {
+					present = append(present, x)
+				}
+			}
+			if len(present) > 0 {
+				if exp := ref.deepest(present); len(l) != 1 || l[0] != exp {
+					stat("finding:wl-dup-order")
+					if os.Getenv("VERIF_C14_FINDINGS") != "" {
+						fail("wlo.order", "Taxonomy.LCA(…, 1.0) answers %v depending on the map iteration order, the tree implies %d", l, exp)
+					}
+				}
+			}
+		}
+		return c14Join(l)
 	case f[0] == "str" && len(f) == 2:
 		str, ok := c14Unhex(f[1])
 		if !ok {
@@ -1905,6 +2255,10 @@ func c14Query(tax *obitax.Taxonomy, ref *c14Ref, f []string, fail func(sig, form
 	return "bad-op"
 }
 
+// position of the taxid attribute of the sequence in the queries that take one
+var c14SeqField = map[string]int{"val": 1, "vf": 1, "rt": 2, "ig": 2, "rr": 2, "flt": 4, "rs": 2, "rss": 2, "sr": 2, "sp": 2, "hq": 2,
+	"sw": 2, "sn": 1, "tr": 1, "tpath": 1}
+
 func (c14) Exec(c string) (string, []Fail) {
 	mode, t, qs, ok := c14Parse(c)
 	if !ok {
@@ -1953,8 +2307,45 @@ func (c14) Exec(c string) (string, []Fail) {
 		if exp := ref.expect(f); exp != "" && exp != r {
 			fail(f[0]+".value", "real code answers %s, the tree implies %s", r, exp)
 		}
+		// alias oracle: a sequence carrying a merged taxid is treated exactly as one carrying the taxid it resolves to
+		if si, isSeq := c14SeqField[f[0]]; isSeq && si < len(f) && ref.wf {
+			if f[si] == "-" {
+				stat("seq:none")
+			} else {
+				sid, _ := strconv.Atoi(f[si])
+				x, known := ref.resolve(sid)
+				_, live := t.parent[sid]
+				switch {
+				case !known:
+					stat("seq:unknown")
+				case live && t.parent[sid] == sid:
+					stat("seq:root")
+				case live:
+					stat("seq:node")
+				default:
+					stat("seq:merged-id")
+					for _, a := range t.aliases {
+						if _, l2 := t.parent[a[1]]; a[0] == sid && !l2 {
+							stat("seq:merged-id-chain")
+							break
+						}
+					}
+					if !(f[0] == "vf" && x < 1) {
+						f2 := append([]string{}, f...)
+						f2[si] = strconv.Itoa(x)
+						r2 := guardT(10*time.Second, func() string { return c14Query(tax, ref, f2, func(string, string, ...any) {}) })
+						if f[0] == "vf" { // the merged id is rewritten into x, x is left alone: the same taxid afterwards
+							r2 = strings.Replace(r2, ":"+f2[si], ":"+strconv.Itoa(x), 1)
+						}
+						if r2 != r {
+							fail(f[0]+".alias", "the answer for a sequence of taxid %d is %s, for its current taxid %d it is %s", sid, r, x, r2)
+						}
+					}
+				}
+			}
+		}
 		switch r {
-		case "panic", "fatal", "err", "unk", "nil", "hang", "noparse", "-":
+		case "panic", "fatal", "err", "unk", "nil", "hang", "noparse", "-", "none":
 			stat("out:" + f[0] + "." + r)
 		}
 		res = append(res, r)
